@@ -65,6 +65,11 @@ func BreakTarget(r *rand.Rand, c *Case) string {
 		case 1: // slice -> array
 			if t.K == KSlice {
 				s.set(Array(2, t.Elem))
+				if byValueCycle(m.Result, map[*Decl]bool{}) {
+					// the slice was what made a recursive type valid
+					s.set(t)
+					continue
+				}
 				return s.path + ": slice -> array"
 			}
 		case 2: // add a target-only field
